@@ -492,8 +492,8 @@ func ruleR03R04(c *Ctx) {
 			}
 		}
 	}
-	c.r.floor("R03", 6*4, "Insert exit states", "C06")
-	c.r.floor("R04", 6*2, "Delete exit states", "C06")
+	c.r.floor("R03", 16, "Insert exit states", "C06")
+	c.r.floor("R04", 8, "Delete exit states", "C06")
 }
 
 // nilnessOfField: nilness of slot.<field> for an lvalue slot expression.
@@ -599,5 +599,5 @@ func ruleR14(c *Ctx) {
 			return true
 		})
 	}
-	c.r.floor("R14", 6+6*5, "counter writers", "C06")
+	c.r.floor("R14", 20, "counter writers", "C06")
 }
